@@ -4,6 +4,7 @@ from __future__ import annotations
 
 import json
 
+import citrace
 import examples as ex
 import sepcommon as sc
 from common import NCPU, SPEC, MachineryError, Outcome, cached, seed, tlc, tlc_ok, tlc_violation, workdir
@@ -60,13 +61,28 @@ def run(tier: str) -> int:
             continue
         seen.add((key, sig))
         out.fail(key, sig, f)
+    # trace direction: what the real generator d_separations yields, in order, must be a behaviour of CIMachine.tla
+    # (CITrace.tla; silent steps and the reading of the limit are inferred by TLC)
+    import random
+    trng = random.Random(1500 + seed())
+    titems = [{"id": f"A3-{i}", "g": citrace.norm(r["g"]), "ks": [-1, 0, 1, 2]} for i, r in enumerate(gens[0]["recs"])]
+    titems += [{"id": f"A4o-{i}", "g": citrace.norm(r["g"]), "ks": [-1, 1, 2]}
+               for i, r in enumerate(trng.sample(gens[1]["recs"], 150 if tier == "quick" else 1500))]
+    titems += [{"id": f"BC5-{i}", "g": citrace.norm(r["g"]), "ks": [-1, 2]}
+               for i, r in enumerate(trng.sample(bc5["recs"], 40 if tier == "quick" else 300))]
+    titems += [{"id": f"EX-{i}", "g": citrace.norm(r["g"]), "ks": [-1, 2]} for i, r in enumerate(exf["recs"]) if len(r["g"]["n"]) <= 6]
+    tr = citrace.validate(wd, titems)
+    for t in tr.pop("rejected"):
+        out.fail(json.dumps({"g": t["g"], "k": t["k"], "api": "d_separations"}, sort_keys=True),
+                 "trace-rejected" + (":" + t["exc"] if "exc" in t else ""), {"trace": t, "spec": "CITrace.tla"})
     cov = {
-        "states": sum(m["distinct"] for m in mcs + cimcs) + sum(g["distinct"] for g in gens) + r5["distinct"] + extra["distinct"] + exf["distinct"] + bc5["distinct"],
+        "states": tr["distinct"] + sum(m["distinct"] for m in mcs + cimcs) + sum(g["distinct"] for g in gens) + r5["distinct"] + extra["distinct"] + exf["distinct"] + bc5["distinct"],
         "transitions": sum(m["generated"] for m in mcs + cimcs) + sum(g["generated"] for g in gens) + r5["generated"] + extra["generated"] + exf["generated"] + bc5["generated"],
         "traces_validated_against_impl": stats.get("calls", 0),
         "judgements_checked": stats.get("judgements", 0),
         "graphs": len(recs),
         "design_mc_enumeration_machine": cimcs,
+        "generator_traces_validated_by_CITrace": tr,
         "example_catalogue_graphs": exf["names"],
         "samples": [{"g": recs[5]["g"], "min": recs[5]["min"]}, {"g": recs[-1]["g"], "min": recs[-1]["min"]}],
         "exhaustive": True,
